@@ -383,23 +383,23 @@ class Script:
                 ):
                     commands.append(CODE_OPS[bytes([byte])])
                 index = index + 1
-                # handle the 3 special bytes 0x4c,0x4d,0x4e if the transaction is
-                # not segwit type
-                if has_segwit is False and bytes([byte]) == b"\x4c":
+                # handle the 3 special bytes 0x4c,0x4d,0x4e (OP_PUSHDATA1/2/4), for
+                # scripts of legacy and of segwit transactions alike
+                if bytes([byte]) == b"\x4c":
                     bytes_to_read = int.from_bytes(
                         scriptraw[index : index + 1], "little"
                     )
                     index = index + 1
                     commands.append(scriptraw[index : index + bytes_to_read].hex())
                     index = index + bytes_to_read
-                elif has_segwit is False and bytes([byte]) == b"\x4d":
+                elif bytes([byte]) == b"\x4d":
                     bytes_to_read = int.from_bytes(
                         scriptraw[index : index + 2], "little"
                     )
                     index = index + 2
                     commands.append(scriptraw[index : index + bytes_to_read].hex())
                     index = index + bytes_to_read
-                elif has_segwit is False and bytes([byte]) == b"\x4e":
+                elif bytes([byte]) == b"\x4e":
                     bytes_to_read = int.from_bytes(
                         scriptraw[index : index + 4], "little"
                     )
